@@ -53,7 +53,8 @@ def build(kind, src, rng):
             rp.add_route([0] + rng.sample(range(1, n), k) + [0])
     else:
         rp = SequenceBasedRoutingProblem(src, strict=(kind == "seq_strict"))
-        rp.set_max_vehicles(rng.randint(1, 2))
+        if rng.random() < 0.6:
+            rp.set_max_vehicles(rng.randint(1, 2))      # otherwise every vehicle is left to the heuristic
         rp.set_max_sequence_length(rng.randint(3, 4))
     return rp
 
